@@ -88,4 +88,269 @@ theorem decipherInts_ok (n : Nat) (hn : n < 2 ^ 32) (ints : List Nat) :
   obtain ⟨es, he⟩ := fromIntegers_ok n hn ints
   exact ⟨es, by simp [decipherInts, he]⟩
 
+/-! ### `Tag::take` in terms of the per-tag value lists -/
+
+theorem first_eq_head (t : Nat) (fs : Fields) : first t fs = (vals t fs).head? := by
+  induction fs with
+  | nil => rfl
+  | cons p fs ih =>
+    obtain ⟨k, v⟩ := p
+    by_cases h : k = t <;> simp [first, vals, h, ih]
+
+theorem vals_erase1_ne {t' t : Nat} (h : t' ≠ t) (fs : Fields) :
+    vals t' (erase1 t fs) = vals t' fs := by
+  induction fs with
+  | nil => rfl
+  | cons p fs ih =>
+    obtain ⟨k, v⟩ := p
+    by_cases hk : k = t
+    · subst hk
+      simp [erase1, vals, Ne.symm h]
+    · by_cases hk' : k = t'
+      · subst hk'
+        simp [erase1, vals, hk, ih]
+      · simp [erase1, vals, hk, hk', ih]
+
+theorem vals_erase1_same (t : Nat) (fs : Fields) : vals t (erase1 t fs) = (vals t fs).tail := by
+  induction fs with
+  | nil => rfl
+  | cons p fs ih =>
+    obtain ⟨k, v⟩ := p
+    by_cases hk : k = t <;> simp [erase1, vals, hk, ih]
+
+theorem take1_fst {α : Type} (t : Nat) (w : Nat → Option α) (fs : Fields) :
+    (take1 t w fs).1 = (vals t fs).head?.bind w := by
+  unfold take1
+  rw [first_eq_head]
+  cases (vals t fs).head? with
+  | none => rfl
+  | some v => cases h : w v <;> simp [h]
+
+theorem vals_take1_ne {α : Type} {t' t : Nat} (h : t' ≠ t) (w : Nat → Option α) (fs : Fields) :
+    vals t' (take1 t w fs).2 = vals t' fs := by
+  unfold take1
+  cases first t fs with
+  | none => rfl
+  | some v => cases hw : w v <;> simp [hw, vals_erase1_ne h]
+
+theorem vals_take1_same {α : Type} (t : Nat) (w : Nat → Option α) (fs : Fields) :
+    vals t (take1 t w fs).2
+      = if ((vals t fs).head?.bind w).isSome then (vals t fs).tail else vals t fs := by
+  unfold take1
+  rw [first_eq_head]
+  cases (vals t fs).head? with
+  | none => rfl
+  | some v => cases hw : w v <;> simp [hw, vals_erase1_same]
+
+theorem take2_fst {α : Type} (t : Nat) (w : Nat → Nat → Option α) (fs : Fields) :
+    (take2 t w fs).1 = match vals t fs with | a :: b :: _ => w a b | _ => none := by
+  unfold take2
+  rw [first_eq_head, first_eq_head, vals_erase1_same]
+  match h : vals t fs with
+  | [] => simp
+  | [a] => simp
+  | a :: b :: r => cases hw : w a b <;> simp [hw]
+
+theorem vals_take2_ne {α : Type} {t' t : Nat} (h : t' ≠ t) (w : Nat → Nat → Option α) (fs : Fields) :
+    vals t' (take2 t w fs).2 = vals t' fs := by
+  unfold take2
+  cases first t fs with
+  | none => rfl
+  | some v0 =>
+    cases first t (erase1 t fs) with
+    | none => rfl
+    | some v1 => cases hw : w v0 v1 <;> simp [hw, vals_erase1_ne h]
+
+theorem vals_take2_same {α : Type} (t : Nat) (w : Nat → Nat → Option α) (fs : Fields) :
+    vals t (take2 t w fs).2
+      = if (take2 t w fs).1.isSome then (vals t fs).drop 2 else vals t fs := by
+  rw [take2_fst]
+  unfold take2
+  rw [first_eq_head, first_eq_head, vals_erase1_same]
+  match h : vals t fs with
+  | [] => simp [h]
+  | [a] => simp [h]
+  | a :: b :: r =>
+    cases hw : w a b <;> simp [hw, vals_erase1_same, h]
+
+/-! ### the etching / terms blocks -/
+
+@[simp] theorem bind_wAny (o : Option Nat) : o.bind wAny = o := by
+  cases o <;> rfl
+
+theorem vals_takeTerms_ne (t' flags : Nat) (fs : Fields)
+    (h8 : t' ≠ 8) (h10 : t' ≠ 10) (h12 : t' ≠ 12) (h14 : t' ≠ 14) (h16 : t' ≠ 16) (h18 : t' ≠ 18) :
+    vals t' (takeTerms flags fs).2.2 = vals t' fs := by
+  unfold takeTerms
+  by_cases h : (takeFlag 1 flags).1 = true <;> simp [h, vals_take1_ne, *]
+
+theorem takeTerms_fst (flags : Nat) (fs : Fields) :
+    (takeTerms flags fs).1 =
+      if flags.testBit 1 then
+        some ⟨(vals 10 fs).head?, (vals 8 fs).head?, (vals 12 fs).head?.bind wU64,
+          (vals 14 fs).head?.bind wU64, (vals 16 fs).head?.bind wU64, (vals 18 fs).head?.bind wU64⟩
+      else none := by
+  unfold takeTerms takeFlag
+  by_cases h : flags.testBit 1 <;> simp [h, take1_fst, vals_take1_ne]
+
+theorem takeTerms_flags (flags : Nat) (fs : Fields) :
+    (takeTerms flags fs).2.1 = if flags.testBit 1 then flags - 2 else flags := by
+  unfold takeTerms takeFlag
+  by_cases h : flags.testBit 1 <;> simp [h]
+
+theorem vals_takeEtching_ne (t' flags : Nat) (fs : Fields)
+    (h1 : t' ≠ 1) (h3 : t' ≠ 3) (h4 : t' ≠ 4) (h5 : t' ≠ 5) (h6 : t' ≠ 6)
+    (h8 : t' ≠ 8) (h10 : t' ≠ 10) (h12 : t' ≠ 12) (h14 : t' ≠ 14) (h16 : t' ≠ 16) (h18 : t' ≠ 18) :
+    vals t' (takeEtching flags fs).2.2 = vals t' fs := by
+  unfold takeEtching
+  by_cases h : (takeFlag 0 flags).1 = true <;> simp [h, vals_take1_ne, vals_takeTerms_ne, *]
+
+theorem takeEtching_rune (flags : Nat) (fs : Fields) :
+    (takeEtching flags fs).1.bind (·.rune) = if flags.testBit 0 then (vals 4 fs).head? else none := by
+  unfold takeEtching takeFlag
+  by_cases h : flags.testBit 0 <;> simp [h, take1_fst, vals_take1_ne]
+
+theorem testBit1_pred (F : Nat) (h : F.testBit 0 = true) : (F - 1).testBit 1 = F.testBit 1 := by
+  simp only [Nat.testBit_eq_decide_div_mod_eq] at *
+  simp at *
+  omega
+
+theorem takeEtching_supply (flags : Nat) (fs : Fields) :
+    supplyOverflows (takeEtching flags fs).1 =
+      (flags.testBit 0 &&
+        !(decide ((if flags.testBit 1 then (vals 8 fs).head?.getD 0 else 0)
+              * (if flags.testBit 1 then (vals 10 fs).head?.getD 0 else 0) < 2 ^ 128) &&
+          decide ((vals 6 fs).head?.getD 0
+              + (if flags.testBit 1 then (vals 8 fs).head?.getD 0 else 0)
+                * (if flags.testBit 1 then (vals 10 fs).head?.getD 0 else 0) < 2 ^ 128))) := by
+  unfold takeEtching takeFlag
+  by_cases h : flags.testBit 0
+  · have hb := testBit1_pred flags h
+    by_cases h1 : flags.testBit 1
+    · rw [h1] at hb
+      simp [h, h1, supplyOverflows, Etching.supply, takeTerms_fst, hb, take1_fst, vals_take1_ne]
+      split <;> simp_all
+      split <;> simp_all
+    · have h1' : flags.testBit 1 = false := by simpa using h1
+      rw [h1'] at hb
+      simp [h, h1', supplyOverflows, Etching.supply, takeTerms_fst, hb, take1_fst, vals_take1_ne]
+      split <;> simp_all
+  · simp [h, supplyOverflows]
+
+theorem takeEtching_flags (flags : Nat) (fs : Fields) :
+    ((takeEtching flags fs).2.1 != 0) = (if flags.testBit 0 then decide (8 ≤ flags) else flags != 0) := by
+  unfold takeEtching takeFlag
+  by_cases h : flags.testBit 0
+  · simp only [h, if_true, takeTerms_flags]
+    have hb := testBit1_pred flags h
+    simp only [Nat.testBit_eq_decide_div_mod_eq] at *
+    simp at h hb ⊢
+    by_cases h1 : (flags - 1) / 2 % 2 = 1
+    · simp only [h1, if_true]
+      by_cases h2 : (flags - 1 - 2) / 4 % 2 = 1
+      · simp only [h2, if_true]
+        by_cases h8 : 8 ≤ flags <;> simp [h8] <;> omega
+      · simp only [h2, if_false]
+        by_cases h8 : 8 ≤ flags <;> simp [h8] <;> omega
+    · simp only [h1, if_false]
+      by_cases h2 : (flags - 1) / 4 % 2 = 1
+      · simp only [h2, if_true]
+        by_cases h8 : 8 ≤ flags <;> simp [h8] <;> omega
+      · simp only [h2, if_false]
+        by_cases h8 : 8 ≤ flags <;> simp [h8] <;> omega
+  · simp [h]
+
+/-! ### `parseFields` against the specification vocabulary -/
+
+theorem take_flags (fs : Fields) : (take1 2 wAny fs).1.getD 0 = specFlags fs := by
+  simp [take1_fst, specFlags]
+
+theorem parseFields_rune (n : Nat) (fs : Fields) :
+    (parseFields n fs).etching.bind (·.rune) = specRune fs := by
+  simp only [parseFields, takeEtching_rune, take_flags, specRune]
+  split <;> simp [vals_take1_ne]
+
+theorem parseFields_mint (n : Nat) (fs : Fields) : (parseFields n fs).mint = specMint fs := by
+  simp only [parseFields, take2_fst, specMint]
+  rw [vals_takeEtching_ne 20 _ _ (by decide) (by decide) (by decide) (by decide) (by decide)
+    (by decide) (by decide) (by decide) (by decide) (by decide) (by decide),
+    vals_take1_ne (by decide)]
+  generalize vals 20 fs = l
+  match l with
+  | [] => rfl
+  | [_] => rfl
+  | _ :: _ :: _ => rfl
+
+theorem parseFields_supply (n : Nat) (fs : Fields) :
+    supplyOverflows (parseFields n fs).etching = specSupplyOverflow fs := by
+  simp only [parseFields, takeEtching_supply, take_flags, specSupplyOverflow]
+  simp [vals_take1_ne]
+
+theorem parseFields_flags (n : Nat) (fs : Fields) :
+    ((parseFields n fs).flags != 0) = specUnrecognizedFlag fs := by
+  simp only [parseFields, takeEtching_flags, take_flags, specUnrecognizedFlag]
+
+/-! ### flaw sequencing -/
+
+theorem decipherMsg_flaw (n : Nat) (msg : Message) :
+    (decipherMsg n msg).flaw =
+      firstFlaw [msg.flaw,
+        flawIf (supplyOverflows (parseFields n msg.fields).etching) .supplyOverflow,
+        flawIf ((parseFields n msg.fields).flags != 0) .unrecognizedFlag,
+        flawIf (hasEvenTag (parseFields n msg.fields).fields) .unrecognizedEvenTag] := by
+  unfold decipherMsg
+  dsimp only
+  generalize msg.flaw = f
+  generalize supplyOverflows (parseFields n msg.fields).etching = a
+  generalize ((parseFields n msg.fields).flags != 0) = b
+  generalize hasEvenTag (parseFields n msg.fields).fields = c
+  cases f <;> cases a <;> cases b <;> cases c <;> simp [orFlaw, firstFlaw, flawIf, Artifact.flaw]
+
+theorem decipherMsg_rune (n : Nat) (msg : Message) :
+    (decipherMsg n msg).rune = specRune msg.fields := by
+  unfold decipherMsg
+  dsimp only
+  split <;> simp [Artifact.rune, parseFields_rune]
+
+theorem decipherMsg_mint (n : Nat) (msg : Message) :
+    (decipherMsg n msg).mint = specMint msg.fields := by
+  unfold decipherMsg
+  dsimp only
+  split <;> simp [Artifact.mint, parseFields_mint]
+
+/-- the message-level flaw of `decipherInts` is the first violation in the documented order -/
+theorem decipherInts_flaw (n : Nat) (hn : n < 2 ^ 32) (ints : List Nat) (a : Artifact)
+    (h : decipherInts n ints = .ok a) :
+    a.flaw = firstFlaw (messageFlaws leftoverEvenTag n (structureFlaw n ints) (fieldPairs ints))
+    ∧ a.rune = specRune (fieldPairs ints) ∧ a.mint = specMint (fieldPairs ints) := by
+  obtain ⟨es, he⟩ := decipherInts_ok n hn ints
+  rw [he] at h
+  injection h with h
+  subst h
+  refine ⟨?_, decipherMsg_rune _ _, decipherMsg_mint _ _⟩
+  rw [decipherMsg_flaw]
+  simp only [messageFlaws, leftoverEvenTag, parseFields_supply, parseFields_flags]
+
+/-- what the push-collecting loop answers, by the first item that is not a data push -/
+theorem collectPushes_spec (its : List Item) : collectPushes its = pushesResult its := by
+  unfold pushesResult
+  induction its with
+  | nil => rfl
+  | cons it its ih =>
+    match it with
+    | .ok (.push bs) =>
+      have hf : List.find? (fun i => !i.isPush) (Item.ok (.push bs) :: its)
+          = List.find? (fun i => !i.isPush) its := by simp [List.find?_cons, Item.isPush]
+      rw [hf]
+      simp only [collectPushes, ih, List.flatMap_cons, Item.bytes]
+      cases List.find? (fun i => !i.isPush) its with
+      | none => rfl
+      | some x =>
+        match x with
+        | .ok (.op _) => rfl
+        | .ok (.push _) => rfl
+        | .err => rfl
+    | .ok (.op b) => simp [collectPushes, Item.isPush]
+    | .err => simp [collectPushes, Item.isPush]
+
 end Ord.Runestone
